@@ -32,6 +32,43 @@ theorem c13_source_programs :
     IpcHub.Gen.wspReplyWrites = 1 := by
   decide
 
+/-- The SET of writers, regenerated from /repo on every run: in the two session packages
+    (service/rtsp, service/wsp) a session connection (`.conn`, `.wsconn`, `.dataChannel`) is written,
+    flushed, handed to a callee or copied ONLY at these places — `Session.response`,
+    `tcpConsumer.Consume`, `wsp.Session.Consume` (the programs of `c13_source_programs`), the single
+    reply write and the request reader of the WSP control loop, and the pull client's own
+    request/response writers (a different connection, to a camera).  A new writer, an alias of a
+    connection or a helper that receives one breaks this obligation. -/
+theorem c13_source_writers :
+    IpcHub.Gen.connUses =
+      ["service/rtsp/pull_client.go:PullClient.request: c.conn.Flush()",
+      "service/rtsp/pull_client.go:PullClient.request: req.Write(c.conn)",
+      "service/rtsp/pull_client.go:PullClient.response: c.conn.Flush()",
+      "service/rtsp/pull_client.go:PullClient.response: resp.Write(c.conn)",
+      "service/rtsp/session.go:Session.response: resp.Write(s.conn)",
+      "service/rtsp/session.go:Session.response: s.conn.Flush()",
+      "service/rtsp/session.go:Session.response: s.wsconn.Write(buf.Bytes())",
+      "service/rtsp/session_roles.go:tcpConsumer.Consume: c.wsconn.Write(buf.Bytes())",
+      "service/rtsp/session_roles.go:tcpConsumer.Consume: p2.Write(c.conn, c.transport.Channels[:])",
+      "service/wsp/session.go:Session.Consume: s.dataChannel.Write(buf.Bytes())",
+      "service/wsp/session.go:Session.process: DecodeRequest(s.conn, s.logger)",
+      "service/wsp/session.go:Session.process: s.conn.Write(buf.Bytes())"] := by
+  decide
+
+/-- `wellLocked` on the shapes a harmless refactoring produces and on the shapes it must refuse
+    (tests on literals): a deferred unlock with early returns inside the section is well-locked; an
+    early return that keeps the lock, a write after the unlock, a flush outside the section and a
+    second lock are not. -/
+theorem c13_well_locked_shapes :
+    wellLocked ["lock:lockW", "connwrite", "return-unlocks", "flush", "unlock:lockW"] = true ∧
+    wellLocked ["return-if:c.closed", "lock:lockW", "connwrite", "return-unlocks", "  in-return:closeSession", "unlock:lockW"] = true ∧
+    wellLocked ["lock:lockW", "connwrite", "return-if:err != nil", "flush", "unlock:lockW"] = false ∧
+    wellLocked ["lock:lockW", "connwrite", "unlock:lockW", "flush"] = false ∧
+    wellLocked ["lock:lockW", "connwrite", "unlock:lockW", "lock:lockW", "flush", "unlock:lockW"] = false ∧
+    wellLocked ["connwrite", "flush"] = false ∧
+    wellLocked ["lock:lockW", "write?connWriter{c.Session}", "unlock:lockW"] = false := by
+  decide
+
 /-- The generated TCP programs ARE well-locked jobs of the LTS: for every chunk list, the
     operations of `tcpConsumer.Consume` are `lock; write chunk…; unlock` and those of
     `Session.response` are `lock; write chunk…; flush; unlock`. -/
